@@ -14,10 +14,10 @@ def run(rep, tier, seed):
     scripts = []
     for i in range(n):
         conf = confs[i % len(confs)] if i % 3 else confs[rng.below(4)]     # tiny volumes over-represented
-        if conf[0].startswith("fat32") and tier == "quick" and i % 4:
+        if tier == "quick" and ((conf[0].startswith("fat32") and i > 22) or (conf[0].startswith("fat16") and i > 44)):
             conf = confs[rng.below(7)]
         scripts.append(sessions.gen_session(rng, conf, nops))
-    judged = sessions.run_judged(scripts, flags=("wf", "tree"))
+    judged = sessions.run_judged(scripts, flags=("wf", "tree"), shards=16)
     checked_states = 0
     for jd in judged:
         f = sc.Findings(jd)
